@@ -73,50 +73,75 @@ func (c *Ctx) errPropagates(rule string, f *ssa.Function, minCalls int, globs ..
 			continue
 		}
 
-		// returned directly?
+		// returned or tested (through value joins)?
 		direct := false
+		seenV := map[ssa.Value]bool{}
 
-		for _, r := range *errVal.Referrers() {
-			if _, ok := r.(*ssa.Return); ok {
-				direct = true
-			}
-		}
+		var uses func(v ssa.Value, d int)
 
-		// from any non-nil edge on this value, no success return
-		fnRes := f.Signature.Results().Len()
-		bad := false
-
-		var witness []string
-
-		for _, b := range f.Blocks {
-			ifi, ok := b.Instrs[len(b.Instrs)-1].(*ssa.If)
-			if !ok {
-				continue
+		uses = func(v ssa.Value, d int) {
+			if seenV[v] || d > 6 || v.Referrers() == nil {
+				return
 			}
 
-			for k, succ := range b.Succs {
-				for _, fact := range p.Facts(ifi.Cond, k == 0) {
-					if strings.HasPrefix(fact, "nonnil(") {
-						cl, idx := CallOf(ifi.Cond.(*ssa.BinOp).X)
-						if cl == call && (idx == -1 || idx == n-1) {
-							if found, w := p.Reach([]Loc{{B: succ}}, ReturnsNilConst(fnRes-1), CutSpec{}); found {
-								bad, witness = true, w
-							}
+			seenV[v] = true
 
-							direct = true
-						}
+			for _, r := range *v.Referrers() {
+				switch x := r.(type) {
+				case *ssa.Return:
+					direct = true
+				case *ssa.Phi:
+					uses(x, d+1)
+				case *ssa.ChangeInterface:
+					uses(x, d+1)
+				case *ssa.BinOp:
+					if _, _, ok := nilTest(x); ok {
+						direct = true
+					}
+				case *ssa.Store:
+					// stored to a local that is tested / returned later: accept the store as a use, the
+					// reachability test below decides
+					if x.Val == v {
+						direct = true
 					}
 				}
 			}
 		}
 
+		uses(errVal, 0)
+
+		// from just after the call, a success return needs the error's nil edge
+		fnRes := f.Signature.Results().Len()
+		bad := false
+
+		var witness []string
+
+		if fnRes > 0 && isErrorType(f.Signature.Results().At(fnRes-1).Type()) {
+			this := func(in ssa.Instruction) bool { return in == ssa.Instruction(call.(*ssa.Call)) }
+			nilLoad := func(e EdgeInfo) bool {
+				// the error was stored to a local and the local is tested
+				t, nilWhenTrue, ok := nilTest(e.Cond)
+				if !ok || e.Taken != nilWhenTrue {
+					return false
+				}
+
+				cl, idx := CallOf(t)
+
+				return cl == call && (idx == -1 || idx == n-1)
+			}
+
+			if found, w := p.Reach(After(f, this), ReturnsNilConst(fnRes-1), CutSpec{Edges: OrEdge(NilEdgeOf(errVal), nilLoad)}); found {
+				bad, witness = true, w
+			}
+		}
+
 		switch {
 		case bad:
-			c.Bad(rule, construct, call.Pos(), "after the error is seen non-nil a success return is reachable: "+strings.Join(witness, " "))
+			c.Bad(rule, construct, call.Pos(), "after the call a success return is reachable without the error having been seen nil: "+strings.Join(witness, " "))
 		case !direct:
 			c.Bad(rule, construct, call.Pos(), "the error is neither returned nor tested")
 		default:
-			c.OK(rule, construct, call.Pos(), "returned or tested; no success return after a non-nil test")
+			c.OK(rule, construct, call.Pos(), "returned or tested; every success return after the call passes the error's nil edge")
 		}
 	}
 }
@@ -211,7 +236,7 @@ func runC10(c *Ctx) {
 		b1 := p.Calls(tx, "(*go.etcd.io/bbolt.Tx).CreateBucketIfNotExists")
 		b2 := p.Calls(tx, "(*go.etcd.io/bbolt.Bucket).CreateBucketIfNotExists")
 		okPath := len(b1) == 1 && len(b2) == 1 && GlobAny(nsKey, p.ArgDesc(b1[0], 1)) && Glob("free:param#2", p.ArgDesc(b2[0], 1)) &&
-			Glob("call:(*go.etcd.io/bbolt.Tx).CreateBucketIfNotExists(*)#0", p.ArgDesc(b2[0], 0))
+			p.LeavesMatch(CallArgs(b2[0])[0], "call:(*go.etcd.io/bbolt.Tx).CreateBucketIfNotExists(*)#0")
 		c.Check(okPath, "R10.3", FuncName(tx)+" :: bucket path is namespace/type", fpos(tx), "namespace bucket then type bucket", "bucket path does not derive from (store.namespace, resourceType)")
 
 		var leaf []ssa.CallInstruction
@@ -226,7 +251,7 @@ func runC10(c *Ctx) {
 
 		if okLeaf {
 			d = p.ArgDesc(leaf[0], 1)
-			okLeaf = Glob("call:(pkg/resource.*).ID(*free:param#3*)", d) && Glob("call:(*go.etcd.io/bbolt.Bucket).CreateBucketIfNotExists(*)#0", p.ArgDesc(leaf[0], 0))
+			okLeaf = Glob("call:(pkg/resource.*).ID(*free:param#3*)", d) && p.LeavesMatch(CallArgs(leaf[0])[0], "call:(*go.etcd.io/bbolt.Bucket).CreateBucketIfNotExists(*)#0")
 
 			if name == "Put" {
 				okLeaf = okLeaf && Glob("free:call:(pkg/state/impl/store.Marshaler).MarshalResource(*param#3)#0", p.ArgDesc(leaf[0], 2))
